@@ -3,6 +3,7 @@ package unpack
 import (
 	"fmt"
 	"reflect"
+	"regexp"
 	"sort"
 	"strings"
 	"time"
@@ -28,6 +29,7 @@ type FieldCase struct {
 	Path    string        // dotted path of the setting
 	Null0   bool          // list kinds of numbers: the first element of the input is null
 	PreVar  int           // pre-filled value: 0 the usual one, 1 the zero value, 2 a negative one
+	Ref     bool          // the setting is a reference "${zref<N>}" to a top-level setting holding the value (VarExp)
 }
 
 // StructCase is the plan for a struct value.
@@ -38,9 +40,19 @@ type StructCase struct {
 }
 
 type gen struct {
-	r   *sim.R
-	ctr int
-	ids int
+	r      *sim.R
+	ctr    int
+	ids    int
+	varexp bool // the configs are created with VarExp: settings may be references
+}
+
+// refable: kinds whose setting may be spelled as a reference to another setting.
+func refable(k Kind) bool {
+	switch k {
+	case KInt, KInt8, KUint16, KF64, KStr, KBool, KDur, KPInt, KPStr, KVInt, KVStr, KPI, KUStr, KUInt, KPDur:
+		return true
+	}
+	return false
 }
 
 func (g *gen) next() int { g.ctr++; return g.ctr }
@@ -112,6 +124,10 @@ func (g *gen) genCase(s *Struct, path string, depth int) *StructCase {
 		if boundable(f.Kind) && !f.Required {
 			fc.PreVar = t.Weighted([]int{4, 1, 1}, "prefill-variant")
 		}
+		if g.varexp && refable(f.Kind) && fc.Mention && t.Chance(1, 3, "by-reference") {
+			fc.Ref = true
+			g.r.Probe("unpack: setting spelled as a reference to another setting")
+		}
 		switch f.Kind {
 		case KInline:
 			fc.Path = path
@@ -141,8 +157,10 @@ func (g *gen) genCase(s *Struct, path string, depth int) *StructCase {
 			if f.Kind != KSStr && t.Chance(1, 6, "null-element") {
 				fc.Null0 = true
 			}
-		case KIface, KCfg:
+		case KIface, KSUCfg, KSMap:
 			fc.Pre = false
+		case KSUStr:
+			fc.Len = 1 + t.Choose(3, "list-len")
 		}
 		sc.Fields = append(sc.Fields, fc)
 	}
@@ -176,10 +194,37 @@ func (sc *StructCase) input() map[string]interface{} {
 	return m
 }
 
+// refName is the top-level setting a by-reference field points to.
+func (fc *FieldCase) refName() string { return "zref" + itoa(fc.N) }
+
+// input is the setting as it is written in the config.
 func (fc *FieldCase) input() interface{} {
+	if fc.Ref {
+		return "${" + fc.refName() + "}"
+	}
+	return fc.rawInput()
+}
+
+// refs adds the settings the by-reference fields point to.
+func (sc *StructCase) refs(out map[string]interface{}) {
+	for _, fc := range sc.Fields {
+		if fc.Ref {
+			out[fc.refName()] = fc.In
+		}
+		if fc.Sub != nil {
+			fc.Sub.refs(out)
+		}
+		for _, e := range fc.Elems {
+			e.refs(out)
+		}
+	}
+}
+
+// rawInput is the value of the setting.
+func (fc *FieldCase) rawInput() interface{} {
 	n := fc.N
 	switch fc.F.Kind {
-	case KInt, KInt8, KUint16, KPInt, KVInt, KUInt, KPI:
+	case KInt, KInt8, KUint16, KPInt, KVInt, KUInt, KPI, KUUint:
 		return uint64(10 + n%80)
 	case KF64, KUFloat, KF32:
 		return float64(n) + 0.5
@@ -188,7 +233,22 @@ func (fc *FieldCase) input() interface{} {
 	case KBool, KUBool:
 		return n%2 == 0
 	case KDur, KPDur:
+		if n%3 == 0 {
+			return uint64(1 + n%50) // a number means seconds
+		}
 		return itoa(1+n%50) + "s"
+	case KSUStr:
+		var l []interface{}
+		for i := 0; i < fc.Len; i++ {
+			l = append(l, "s"+itoa(n)+"_"+itoa(i))
+		}
+		return l
+	case KSUCfg:
+		return []interface{}{map[string]interface{}{"p": uint64(1), "q": uint64(2)}, map[string]interface{}{"p": uint64(1)}}
+	case KSMap:
+		return []interface{}{map[string]interface{}{"p": uint64(10 + n%80)}, map[string]interface{}{"q": uint64(11 + n%80), "r": uint64(12 + n%80)}}
+	case KRegex:
+		return "ab+c" + itoa(n)
 	case KUAny:
 		return "u" + itoa(n)
 	case KUCfg:
@@ -349,6 +409,18 @@ func (sc *StructCase) prefill(v reflect.Value) {
 			f.SetInt(6)
 		case KPSInt:
 			f.Set(reflect.ValueOf(&[]int{1, 2}))
+		case KUUint:
+			f.Set(reflect.ValueOf(UUint{U: 5}))
+		case KSUStr:
+			f.Set(reflect.ValueOf([]UStr{{S: "o1"}, {S: "o2"}}))
+		case KRegex:
+			f.Set(reflect.ValueOf(regexp.MustCompile("old")))
+		case KCfg:
+			c, err := ucfg.NewFrom(map[string]interface{}{"z": uint64(9), "p": uint64(1)})
+			if err != nil {
+				panic(err)
+			}
+			f.Set(reflect.ValueOf(c))
 		case KMSlice:
 			f.Set(reflect.ValueOf(map[string][]int{"p": {1, 2, 3}, "z": {9}}))
 		case KMIface:
@@ -359,6 +431,15 @@ func (sc *StructCase) prefill(v reflect.Value) {
 			f.Set(reflect.ValueOf(&Inner{X: 5, Y: "old", hidden: 3, Ign: "keep"}))
 		}
 	}
+}
+
+// durOf: a duration setting is a literal with a unit, or a number of seconds.
+func durOf(in interface{}) time.Duration {
+	if n, ok := in.(uint64); ok {
+		return time.Duration(n) * time.Second
+	}
+	d, _ := time.ParseDuration(in.(string))
+	return d
 }
 
 func ints(in interface{}) []int {
@@ -471,11 +552,32 @@ func (sc *StructCase) apply(v reflect.Value, present bool) {
 		case KBool:
 			f.SetBool(in.(bool))
 		case KDur:
-			d, _ := time.ParseDuration(in.(string))
-			f.SetInt(int64(d))
+			f.SetInt(int64(durOf(in)))
 		case KPDur:
-			d, _ := time.ParseDuration(in.(string))
+			d := durOf(in)
 			f.Set(reflect.ValueOf(&d))
+		case KUUint:
+			f.Set(reflect.ValueOf(UUint{U: in.(uint64) + 3}))
+		case KSUStr:
+			var l []UStr
+			for _, x := range in.([]interface{}) {
+				l = append(l, UStr{S: "<" + x.(string) + ">"})
+			}
+			f.Set(combine("", f, reflect.ValueOf(l)))
+		case KSUCfg:
+			f.Set(reflect.ValueOf([]UCfg{{N: 102}, {N: 101}}))
+		case KSMap:
+			var l []map[string]int
+			for _, x := range in.([]interface{}) {
+				m := map[string]int{}
+				for k, v := range x.(map[string]interface{}) {
+					m[k] = int(v.(uint64))
+				}
+				l = append(l, m)
+			}
+			f.Set(reflect.ValueOf(l))
+		case KRegex:
+			f.Set(reflect.ValueOf(regexp.MustCompile(in.(string))))
 		case KPInt:
 			f.Set(reflect.ValueOf(intp(int(in.(uint64)))))
 		case KPStr:
@@ -564,7 +666,15 @@ func (sc *StructCase) apply(v reflect.Value, present bool) {
 		case KIface:
 			f.Set(reflect.ValueOf(in))
 		case KCfg:
-			c, err := ucfg.NewFrom(in)
+			m := map[string]interface{}{}
+			if !f.IsNil() {
+				// the settings are merged into the config the field already holds
+				m["z"], m["p"] = uint64(9), uint64(1)
+			}
+			for k, v := range in.(map[string]interface{}) {
+				m[k] = v
+			}
+			c, err := ucfg.NewFrom(m)
 			if err != nil {
 				panic(err)
 			}
@@ -661,7 +771,7 @@ func (sc *StructCase) bind() {
 			e.bind()
 		}
 		if fc.Mention && fc.F.Kind != KInline {
-			fc.In = fc.input()
+			fc.In = fc.rawInput()
 		}
 	}
 }
@@ -687,6 +797,19 @@ func diffValues(path string, got, want reflect.Value) string {
 	}
 	switch got.Kind() {
 	case reflect.Ptr:
+		if got.Type() == tRegex {
+			g, w := "<nil>", "<nil>"
+			if !got.IsNil() {
+				g = got.Interface().(*regexp.Regexp).String()
+			}
+			if !want.IsNil() {
+				w = want.Interface().(*regexp.Regexp).String()
+			}
+			if g != w {
+				return fmt.Sprintf("%s: regexp %s, expected %s", path, g, w)
+			}
+			return ""
+		}
 		if got.Type() == tCfg {
 			var g, w *ucfg.Config
 			if !got.IsNil() {
